@@ -203,6 +203,7 @@ def run_shard(spec_):
         return {"evaluations": 1, "digests": [], "samples": [], "counters": counters, "violations": violations, "known": []}
     for p in range(spec_["problems"]):
         spec = optmon.gen_problem(rng, families=("lin", "quad", "trig", "pole", "incons", "rankdef", "pinned"))
+        spec["split_actions"] = rng.random() < 0.35       # one action object per target instead of one for all
         n = guarded(violations, spec, check_solve, spec, counters, violations)
         counters["problems"] = counters.get("problems", 0) + 1
         if n >= 2:
